@@ -16,3 +16,101 @@ Definition ex_hpps_tiles : hpps_syntax :=
             (mkHPpsRangeSyn 1 true true 1 [(1, -1); (-12, 12)]%Z 2 1)
             (mkHPpsSccSyn true true true 4%Z (-5)%Z 3%Z true false 2 1 [[1000; 3]; [5; 6]; [511; 0]])
             [true; false; true; true].
+
+(* ------------------------------------------------------------------ an SPS: 960x540, 64x64 CTBs (135 CTBs: 8 address
+   bits), two short-term sets (explicit; inter-predicted from it with used entries), two long-term
+   pictures, temporal mvp, SAO, SCC extension with motion_vector_resolution_control_idc = 2 *)
+Definition ex_hs_prof : hprofile_syntax := mkHProfSyn 0 false 1 1610612736 true false true true 0 false.
+Definition ex_hs_hrd : hhrd_syntax := mkHHrdSyn false false false 0 0 false 0 0 0 0 0 0 0 [].
+Definition ex_hs_vui : hvui_syntax :=
+  mkHVuiSyn false 0 0 0 false false false 0 false false 0 0 0 false 0 0 false false false
+            false 0 0 0 0 false 0 0 false 0 false ex_hs_hrd false false false false 0 0 0 0 0.
+Definition ex_hs_3d : hsps3d :=
+  mkHSps3d false false 0 false false false false false false false 0 false false false false false.
+
+Definition ex_hsps : hsps_syntax :=
+  mkHSpsSyn 0 1 0 0 true (mkHPtlSyn ex_hs_prof 93 []) 2 1 false 960 540 false 0 0 0 0 0 0 4 true [(4, 2, 0)]
+            0 3 0 3 1 1 false false ex_hsl_none true true false 0 0 0 0 false
+            [RpsExplicit [(0, true)] [(1, true)];
+             RpsInter 0 true 0 [(true, true); (false, true); (true, true)]]
+            true [(5, true); (9, false)] true true false ex_hs_vui
+            true false false false true 0
+            [false; false; false; false; false; false; false; false; false] false
+            ex_hs_3d (mkHSpsSccSyn false false 0 0 false [] 2 false) [].
+
+Definition ex_hpps_range0 : hppsrange_syntax := mkHPpsRangeSyn 0 false false 0 [(0, 0)]%Z 0 0.
+Definition ex_hpps_scc0 : hppsscc_syntax := mkHPpsSccSyn false false false 0%Z 0%Z 0%Z false false 0 0 [].
+
+(* PPS 5 -> SPS 2: dependent slices, output flag, one extra header bit, weighted bi-prediction, wavefronts
+   (entry points), deblocking override, header extension; lists_modification_present_flag = 0 *)
+Definition ex_hpps_b : hpps_syntax :=
+  mkHPpsSyn 0 1 5 2 true true 1 false true 1 0 0%Z false false false 0 0%Z 0%Z true false true false
+            false true 0 0 true [] [] false true true true false 0%Z 0%Z
+            false ex_hsl_none false 0 true
+            false false false false false 0 ex_hpps_range0 ex_hpps_scc0 [].
+
+(* PPS 9 -> SPS 2: weighted prediction, lists_modification_present_flag = 1 *)
+Definition ex_hpps_e : hpps_syntax :=
+  mkHPpsSyn 0 1 9 2 false false 0 false false 1 0 0%Z false false false 0 0%Z 0%Z false true false false
+            false false 0 0 true [] [] false false false false false 0%Z 0%Z
+            false ex_hsl_none true 0 false
+            false false false false false 0 ex_hpps_range0 ex_hpps_scc0 [].
+
+(* PPS 7 -> SPS 2: lists_modification_present_flag = 1, nothing else *)
+Definition ex_hpps_r : hpps_syntax :=
+  mkHPpsSyn 0 1 7 2 false false 0 false false 0 0 0%Z false false false 0 0%Z 0%Z false false false false
+            false false 0 0 true [] [] false false false false false 0%Z 0%Z
+            false ex_hsl_none true 0 false
+            false false false false false 0 ex_hpps_range0 ex_hpps_scc0 [].
+
+Definition ex_spsmap (id : N) : option hsps := if id =? 2 then Some (expected_hsps ex_hsps) else None.
+Definition ex_ppsmap (id : N) : option hpps :=
+  if id =? 5 then Some (expected_hpps ex_hpps_b)
+  else if id =? 9 then Some (expected_hpps ex_hpps_e)
+  else if id =? 7 then Some (expected_hpps ex_hpps_r) else None.
+
+(* a B slice, non-first segment (address 77), RPS coded in the slice header and inter-predicted from
+   set 1, one long-term entry from the SPS and one coded, overrides, pred weight table, entry points,
+   header extension, slice data containing 00 00 01 *)
+Definition ex_hslice_b : hslice_syntax :=
+  mkHSliceSyn 1 0 1 false false 5 false 77 [true]
+              0 true 0 37 false
+              (RpsInter 0 true 0 [(true, true); (true, true); (false, false); (true, true)]) 0
+              [(1, true, 3)] [(200, true, false, 0)]
+              true true false true 2 1 false [] false []
+              true true false 1
+              3 (-1)%Z
+              [mkHPwt true true 5%Z (-7)%Z 1%Z (-1)%Z 100%Z (-100)%Z;
+               mkHPwt false true 0%Z 0%Z 2%Z 3%Z 4%Z 5%Z;
+               mkHPwt true false (-128)%Z 127%Z 0%Z 0%Z 0%Z 0%Z]
+              [mkHPwt false false 0%Z 0%Z 0%Z 0%Z 0%Z 0%Z;
+               mkHPwt true true 1%Z 2%Z 3%Z 4%Z 5%Z 6%Z]
+              2 true (-4)%Z 1%Z (-1)%Z 0%Z 0%Z 0%Z false true false 2%Z (-2)%Z true
+              9 [100; 1000] [1; 2; 3] [0; 0; 1; 37; 255].
+
+(* a P slice with an explicit RPS coded in the slice header and ref_pic_lists_modification *)
+Definition ex_hslice_e : hslice_syntax :=
+  mkHSliceSyn 1 0 1 true false 9 false 0 []
+              1 false 0 41 false
+              (RpsExplicit [(0, true); (2, true)] [(1, false)]) 0
+              [] [(17, true, true, 1)]
+              false false true false 0 0 true [2; 0] false []
+              false false true 1
+              2 1%Z
+              [mkHPwt true true 5%Z (-7)%Z 1%Z (-1)%Z 100%Z (-100)%Z;
+               mkHPwt false false 0%Z 0%Z 0%Z 0%Z 0%Z 0%Z]
+              []
+              1 false 3%Z 0%Z 0%Z 0%Z 0%Z 0%Z false false false 0%Z 0%Z false
+              0 [] [] [128; 0; 0; 3].
+
+(* the witness of finding C15-F11: a P slice that selects the inter-predicted set 1 of the SPS while
+   lists_modification_present_flag = 1 *)
+Definition ex_hslice_r : hslice_syntax :=
+  mkHSliceSyn 1 0 1 true false 7 false 0 []
+              1 false 0 3 true (RpsExplicit [] []) 1
+              [] []
+              false false false false 0 0 false [] false []
+              false false true 0
+              0 0%Z [] []
+              0 false 0%Z 0%Z 0%Z 0%Z 0%Z 0%Z false false false 0%Z 0%Z false
+              0 [] [] [1; 2].
